@@ -11,7 +11,7 @@ PYCTR_ERRS = {
     'InvalidSignatureTypeError': 33,
     'RomFSFileNotFoundError': 40, 'RomFSIsADirectoryError': 41, 'RomFSEntryError': 42,
     'InvalidRomFSHeaderError': 43, 'InvalidIVFCError': 44,
-    'InvalidCCIError': 50, 'NCCHSeedError': 60, 'InvalidNCCHError': 61,
+    'InvalidCCIError': 50, 'InvalidHeaderError': 70, 'InvalidHeaderLengthError': 71, 'NCCHSeedError': 60, 'InvalidNCCHError': 61,
 }
 
 MODULES = {
@@ -48,5 +48,30 @@ MODULES = {
     ]),
     'exefs': dict(file='pyctr/type/exefs.py', kernels=[
         dict(py='_normalize_path', coq='normalize_path', args=[('p', SEQ)], ret=SEQ),
+    ]),
+    'difi': dict(file='pyctr/type/save/partdesc/difi.py', kernels=[
+        dict(py='DIFI.from_bytes', coq='difi_from_bytes', args=[('data', SEQ)], raises=True),
+        dict(py='DIFI.to_bytes', coq='difi_to_bytes', args=[], ret=SEQ,
+             selfattrs={'ivfc_offset': INT, 'ivfc_size': INT, 'dpfs_offset': INT, 'dpfs_size': INT, 'part_hash_offset': INT,
+                        'part_hash_size': INT, 'enable_external_ivfc_lv4': BOOL, 'dpfs_tree_lv1_selector': INT,
+                        'external_ivfc_lv4_offset': INT}),
+    ]),
+    'tmd': dict(file='pyctr/type/tmd.py', kernels=[
+        dict(py='TitleVersion.from_int', coq='titleversion_from_int', args=[('ver', INT)]),
+        dict(py='TitleVersion.__index__', coq='titleversion_index', args=[], ret=INT, selfattrs={'major': INT, 'minor': INT, 'micro': INT}),
+        dict(py='ContentTypeFlags.from_int', coq='ctf_from_int', args=[('flags', INT)]),
+        dict(py='ContentTypeFlags.__index__', coq='ctf_index', args=[], ret=INT,
+             selfattrs={'encrypted': BOOL, 'disc': BOOL, 'cfm': BOOL, 'optional': BOOL, 'shared': BOOL}),
+    ]),
+    'smdh': dict(file='pyctr/type/smdh.py', kernels=[
+        dict(py='rgb565_to_rgb888_tuple', coq='rgb565_to_rgb888_tuple', args=[('data', SEQ)]),
+        dict(py='load_tiled_rgb565_to_array', coq='pixel_offset', expr_of='pixel_offset',
+             args=[('x', INT), ('y', INT), ('width', INT), ('pixel_size', INT)], ret=INT),
+        dict(py='SMDHFlags.from_bytes', coq='smdhflags_from_bytes', args=[('flag_bytes', SEQ)]),
+        dict(py='SMDHRegionLockout.from_bytes', coq='lockout_from_bytes', args=[('region_lockout_bytes', SEQ)]),
+        dict(py='next_pow_2', coq='next_pow_2', args=[('i', INT)], ret=INT),
+    ]),
+    'util': dict(file='pyctr/util.py', kernels=[
+        dict(py='roundup', coq='roundup', args=[('offset', INT), ('alignment', INT)], ret=INT),
     ]),
 }
